@@ -90,12 +90,13 @@ def setup():
     from typhon.files import FileSet
     from typhon.files.handlers.common import FileHandler, FileInfo
     from typhon.collocations import Collocations, Collocator
+    from typhon.files import NetCDF4
     import xarray as xr
     logging.getLogger("typhon").setLevel(logging.CRITICAL + 10)
     logging.getLogger("typhon").propagate = False
     _T.update(fsmod=fsmod, cmod=cmod, tmod=tmod, FileSet=FileSet,
               FileHandler=FileHandler, FileInfo=FileInfo,
-              Collocations=Collocations, Collocator=Collocator, xr=xr,
+              Collocations=Collocations, Collocator=Collocator, xr=xr, NetCDF4=NetCDF4,
               earth_radius=float(cst.earth_radius))
     from sim.seams import typhon_state
     _T["state"] = typhon_state()
@@ -141,6 +142,8 @@ def reader(file_info):
     if rel == st.w.get("unreadable"):
         st.fire("unreadable_file")
         raise InjectedReadError(5, f"injected EIO reading {rel}")
+    if file_info.path.endswith(".nc"):
+        return _T["NetCDF4"]().read(file_info)
     with open(file_info.path, "rb") as f:
         return pickle.load(f)
 
@@ -151,6 +154,11 @@ def writer(data, file_info):
     st.sim.yield_(f"write:{rel}")
     st.writes.setdefault(rel, []).append(_pair_ids(data, st.w))
     st.sim.event("write", rel)
+    if file_info.path.endswith(".nc"):
+        # the format Collocations filesets use by default
+        st.sim.probe("netcdf_output_written")
+        _T["NetCDF4"]().write(data, file_info)
+        return
     with open(file_info.path, "wb") as f:
         pickle.dump(data, f, protocol=pickle.HIGHEST_PROTOCOL)
 
@@ -235,6 +243,7 @@ def gen_workload(tape):
     w["output"] = tape.pick(["memory", "fileset", "search"], "output")
     w["max_threads"] = tape.pick([3, 1, 2], "threads")
     w["out_dirs"] = tape.flag("out_dirs", 1, 2)      # output template with sub directories
+    w["out_nc"] = tape.flag("out_nc", 1, 2)          # output files in NetCDF4 (typhon's default)
     # rarely: one file of each fileset is dense (> 10^6 candidate pairs for that
     # file pair -> the temporally pre-binned search inside a worker)
     w["dense"] = tape.flag("dense", 1, 150)
@@ -460,7 +469,8 @@ def run_one(tape, only=None):
         out_fs = None
         if w["output"] != "memory":
             out_fs = _T["Collocations"](
-                f"{root}/{OUT_TMPL_DIRS if w['out_dirs'] else OUT_TMPL}",
+                f"{root}/{OUT_TMPL_DIRS if w['out_dirs'] else OUT_TMPL}"[:-4]
+                + (".nc" if w["out_nc"] else ".dat"),
                 handler=handler, name="OUT", read_mode="compact", fs=SimLocalFS())
         start = BASE + timedelta(seconds=w["period"][0])
         end = BASE + timedelta(seconds=w["period"][1])
@@ -722,7 +732,10 @@ def _oracle(w, st, sim, outcome, policy, out_fs, procs, queues):
 
 
 def _check_dataset(ds, w, A, B):
-    """Stored interval / distance of each pair are its actual values."""
+    """A result (yielded, or read back from the output fileset) is unchanged
+    data: the stored points carry the time and position of the original
+    points with their ids, and interval / distance of each pair are the actual
+    values."""
     V = []
     try:
         pairs = np.asarray(ds["Collocations/pairs"].values)
@@ -730,6 +743,53 @@ def _check_dataset(ds, w, A, B):
         if ds["Collocations/interval"].size != n or ds["Collocations/distance"].size != n:
             V.append(_viol("C05/metadata-length",
                            "interval/distance length differs from pairs"))
+            return V
+        t = {}
+        for side, P in (("A", A), ("B", B)):
+            orig = {p["id"]: p for p in P}
+            ids = np.asarray(ds[f"{side}/id"].values)
+            lat = np.asarray(ds[f"{side}/lat"].values, dtype=float)
+            lon = np.asarray(ds[f"{side}/lon"].values, dtype=float)
+            tim = np.asarray(ds[f"{side}/time"].values).astype("M8[us]")
+            for k, i_ in enumerate(ids):
+                p = orig.get(int(i_))
+                if p is None:
+                    continue            # outside the period: reported as spurious pair
+                if lat[k] != p["lat"] or lon[k] != p["lon"] or \
+                        tim[k] != np.datetime64(p["t"], "us"):
+                    V.append(_viol(
+                        "C05/stored-point-changed",
+                        f"point {int(i_)} of {side} stored as ({tim[k]}, {lat[k]}, "
+                        f"{lon[k]}), the file holds ({p['t']}, {p['lat']}, {p['lon']})"))
+                    return V
+            t[side] = (ids, lat, lon, tim)
+        pa, pb = pairs[0].astype(int), pairs[1].astype(int)
+        iv = np.asarray(ds["Collocations/interval"].values)
+        sec = iv / np.timedelta64(1, "s") if iv.dtype.kind == "m" else iv.astype(float)
+        want = np.abs((t["A"][3][pa] - t["B"][3][pb]) / np.timedelta64(1, "s"))
+        bad = np.nonzero(np.abs(sec - want) > 1e-3)[0]
+        if bad.size:
+            k = int(bad[0])
+            V.append(_viol("C05/stored-interval",
+                           f"pair ({int(t['A'][0][pa[k]])}, {int(t['B'][0][pb[k]])}) "
+                           f"interval {sec[k]} s, actual {want[k]} s"))
+            return V
+        la1, lo1 = np.radians(t["A"][1][pa]), np.radians(t["A"][2][pa])
+        la2, lo2 = np.radians(t["B"][1][pb]), np.radians(t["B"][2][pb])
+        h = np.sin((la2 - la1) / 2) ** 2 + \
+            np.cos(la1) * np.cos(la2) * np.sin((lo2 - lo1) / 2) ** 2
+        arc = 2 * EARTH_R * np.arcsin(np.sqrt(np.clip(h, 0, 1)))
+        dist = np.asarray(ds["Collocations/distance"].values, dtype=float)
+        # typhon's great-circle formula against the harness's own: 1 m + 0.3 %
+        # (typhon.geodesy uses the equatorial radius here, 0.11 % more than
+        # the mean radius; the pairs themselves are judged against
+        # max_distance separately)
+        bad = np.nonzero(np.abs(dist - arc) > 1e-3 + 3e-3 * arc)[0]
+        if bad.size:
+            k = int(bad[0])
+            V.append(_viol("C05/stored-distance",
+                           f"pair ({int(t['A'][0][pa[k]])}, {int(t['B'][0][pb[k]])}) "
+                           f"distance {dist[k]} km, actual {arc[k]:.6f} km"))
     except Exception as e:  # noqa
         V.append(_viol("C05/malformed-result", f"{type(e).__name__}: {e}"[:300]))
     return V
